@@ -18,7 +18,9 @@ def group(kind):
     return T.dict(_open=True, subjectPermissions=sp, minChainLength=T.int(-2, 255), chainLengthRange=T.int(-1, 255))
 
 
-GROUPS = [[], ["all"], [1], [2], [1, "all"], [2, 1]]
+import os as _os
+THOROUGH = _os.environ.get("PYVC_TIER") == "thorough"
+GROUPS = [[], ["all"], [1], [2], [1, "all"], [2, 1]] + ([[2, 2], ["all", 1], [1, 1, "all"], [3]] if THOROUGH else [])
 
 
 def tbs(app_lens=(0, 1, 2), groups=GROUPS, id_kinds=("name", "none")):
@@ -48,7 +50,7 @@ def cert(issuer=None, **kw):
     return T.rec(CERT, certificate=cert_dict(**kw), issuer=issuer if issuer is not None else T.none)
 
 
-ISSUER_GROUPS = [None, [], ["all"], [1], [2], [1, "all"], [2, 1]]
+ISSUER_GROUPS = [None] + GROUPS
 ISSUER = cert(app_lens=(1,), groups=ISSUER_GROUPS)
 SUBJECT = cert(groups=[None] + GROUPS, app_lens=(None, 0, 1, 2))
 S = dict(mode="int", spec_module="spec_sec", engine_setup=models_sec.setup, frame_check=False, props=["C09"])
